@@ -344,3 +344,22 @@ def case_ovr_addzero():
 
 
 CASES.update({"ovr_expand": case_ovr_expand, "ovr_minmax": case_ovr_minmax, "ovr_addzero": case_ovr_addzero})
+
+
+def case_scatter_reduction():
+    idx = numpy_helper.from_array(np.array([[0], [1], [2]], dtype=np.int64), "idx")
+    g = helper.make_graph([helper.make_node("ScatterND", ["d", "idx", "u"], ["y"], reduction="add")], "g",
+                          [vi("d", TensorProto.FLOAT, [3, 2]), vi("u", TensorProto.FLOAT, [3, 2])], [vi("y", TensorProto.FLOAT, [3, 2])], [idx])
+    m = helper.make_model(g, opset_imports=[helper.make_opsetid("", 18)], ir_version=9)
+    return check(m, [{"d": np.ones((3, 2), np.float32), "u": np.full((3, 2), 5.0, np.float32)}], "ScatterND(data, [[0],[1],[2]], updates, reduction='add')")
+
+
+def case_scatter_symbolic_dim():
+    idx = numpy_helper.from_array(np.array([[0], [1]], dtype=np.int64), "idx")
+    g = helper.make_graph([helper.make_node("ScatterND", ["d", "idx", "u"], ["y"])], "g",
+                          [vi("d", TensorProto.FLOAT, ["N", 3]), vi("u", TensorProto.FLOAT, ["N", 3])], [vi("y", TensorProto.FLOAT, ["N", 3])], [idx])
+    m = helper.make_model(g, opset_imports=[helper.make_opsetid("", 18)], ir_version=9)
+    return check(m, [{"d": np.ones((2, 3), np.float32), "u": np.full((2, 3), 5.0, np.float32)}], "ScatterND(data[N,3], [[0],[1]], updates[N,3])")
+
+
+CASES.update({"scatter_reduction": case_scatter_reduction, "scatter_symbolic_dim": case_scatter_symbolic_dim})
